@@ -115,6 +115,9 @@ StructuralRows == {
   \* exponential prior whose ODE order differs from the number of Taylor coefficients
   OtherRow("prior_exponential",         "ode_order", "structural", {"dense"}, [too_small |-> "raise", too_large |-> "raise"]),
   OtherRow("prior_exponential_diffuse", "ode_order", "structural", {"dense"}, [too_small |-> "raise", too_large |-> "raise"]),
+  \* Taylor coefficients that are pytrees with several array leaves: a later coefficient keeps the tree structure of the
+  \* first one but SOME (not all) of its leaves have another shape (fields swapped, one field of another rank)
+  OtherRow("prior_wiener_integrated", "tcoeffs_tree", "structural", Facts, [mismatch |-> "raise"]),
   \* residual-based error estimate whose constraint output differs in shape from the state (jet-lifted ODE)
   OtherRow("error_residual_std", "constraint", "structural", Facts, [mismatch |-> "raise"]),
   \* matrix-free extension of the block-diagonal model: fewer ensemble members than Taylor coefficients
